@@ -232,6 +232,9 @@ def load_hdf5(path, meta_only=False):
             dataset_dict = {}
             for dkey in h5["data"]:
                 dset = h5["data"][dkey]
+                if "path" not in dset.attrs:
+                    # leftover of a save that failed part-way
+                    continue
                 dbin = dset[...]
                 name = dkey + "_" + pathlib.Path(dset.attrs["path"]).name
                 dpath = pathlib.Path(tdir) / name
@@ -309,6 +312,9 @@ def save_hdf5(h5path, indent, user_rate, user_name, user_comment, h5mode="a"):
         # store raw experimental data as binary array
         data = h5.require_group("data")
         dhash = hash_file(indent.path)
+        if dhash in data and "path" not in data[dhash].attrs:
+            # leftover of a save that failed part-way; write it again
+            del data[dhash]
         if dhash not in data:
             meas = data.create_dataset(
                 dhash,
